@@ -21,7 +21,7 @@ func init() {
 
 func runC17(c *Ctx) {
 	c.Rule("R17a", "alterTable builders (mysql, postgres): in the change type switch every case that can reach a non-error exit appends to the reverse list or assigns the reversible flag on every such path", 15)
-	c.Rule("R17b", "Plan.Reversible: SetReversible ranges over all plan changes, clears the flag when a change has no reverse statements and never sets it inside the loop; each PlanChanges calls it on every success path; any other store assigns the constant false", 4)
+	c.Rule("R17b", "Plan.Reversible: SetReversible ranges over all plan changes, clears the flag when a change has no reverse statements and never sets it inside the loop; each PlanChanges calls it on every success path; any other store can only clear it (the constant false, or a conjunction with its current value)", 4)
 	c.Rule("R17c", "sqltool down templates range over `rev .Changes` and print every element of .ReverseStmts; the up part ranges over .Changes; `rev` reverses a copy", 4)
 	c.Rule("R17e", "alterTable builders: the reverse change recorded in a case is the inverse kind of the case's change (Add<X>↔Drop<X> with the same payload, Modify<X>/Rename<X> with From/To swapped)", 15)
 
@@ -316,8 +316,23 @@ func checkSetReversible(c *Ctx) {
 						if tv := info.Types[as.Rhs[i]]; tv.Value != nil && tv.Value.String() == "false" {
 							isFalse = true
 						}
+						// `x = x && …` can only clear the flag as well
+						var conj func(e ast.Expr) bool
+						conj = func(e ast.Expr) bool {
+							e = ast.Unparen(e)
+							if types.ExprString(e) == types.ExprString(ast.Unparen(l)) {
+								return true
+							}
+							if be, ok := e.(*ast.BinaryExpr); ok && be.Op == token.LAND {
+								return conj(be.X) || conj(be.Y)
+							}
+							return false
+						}
+						if be, ok := ast.Unparen(as.Rhs[i]).(*ast.BinaryExpr); ok && be.Op == token.LAND && conj(be) {
+							isFalse = true
+						}
 					}
-					c.Check("R17b", fi.Name+"|store Plan.Reversible", l.Pos(), isFalse, "Plan.Reversible is stored outside SetReversible with a value other than the constant false")
+					c.Check("R17b", fi.Name+"|store Plan.Reversible", l.Pos(), isFalse, "Plan.Reversible is stored outside SetReversible with a value that can set it (other than the constant false or a conjunction with its current value)")
 				}
 			}
 			return true
